@@ -266,7 +266,7 @@ static void pend_run(uint64_t idx, vh_rng_t * rng) { (void) idx; (void) rng; if 
 int main(int argc, char ** argv) {
     static const vh_phase_t phases[] = { { "decimal literals", p0_count, p0_run }, { "integer literals", p1_count, p1_run }, { "suffixes, specials, booleans", p2_count, p2_run },
         { "rounding boundaries", p3_count, p3_run }, { "close records", pend_count, pend_run } };
-    vh_require("fp.double_ok"); vh_require("fp.float_ok"); vh_require("fp.number_ok"); vh_require("fp.literal_with_white_space"); vh_require("int.int32_ok"); vh_require("int.uint64_ok");
+    vh_decoy_enable(9); vh_require("decoy.messages_run_on_a_second_context"); vh_require("fp.double_ok"); vh_require("fp.float_ok"); vh_require("fp.number_ok"); vh_require("fp.literal_with_white_space"); vh_require("int.int32_ok"); vh_require("int.uint64_ok");
     vh_require("units.suffix_ok"); vh_require("special.mnemonic_ok"); vh_require("class.leading-point"); vh_require("class.trailing-point"); vh_require("class.with-exponent");
     return vh_main(argc, argv, "C04", phases, 5);
 }
